@@ -76,6 +76,9 @@ pub fn chain_of(c: &Case) -> Chain {
       let fl = match op {
         "inner-of-flat_map" => Op::FlatMap(vec![inner]),
         "inner-of-concat_map" => Op::ConcatMap(vec![inner]),
+        // three inner producers, one running and two waiting for its slot when the stream ends
+        "inner-of-concat_map[2 queued]" => Op::ConcatMap(vec![inner.clone(), inner.clone(), inner]),
+        "inner-of-merge_all(1)[2 queued]" => Op::MergeAll(1, vec![inner.clone(), inner.clone(), inner]),
         _ => Op::MergeAll(2, vec![inner]),
       };
       Chain::new(Src::Hot(0), vec![fl, c.cutter.clone()])
@@ -164,6 +167,11 @@ pub fn observe(c: &Case) -> Result<Obs, String> {
     // (inners subscribed by later outer items are new producers, not the ones
     // that were feeding the subscriber when the stream ended)
     acts.push(TAct { t: 2 * MS, act: Act::In(0, N::Next(V::I(0))) });
+    if c.secondary.map_or(false, |o| o.ends_with("queued]")) {
+      // ... except where two more are queued behind it on purpose: only one runs at a time
+      acts.push(TAct { t: 2 * MS, act: Act::In(0, N::Next(V::I(1))) });
+      acts.push(TAct { t: 2 * MS, act: Act::In(0, N::Next(V::I(2))) });
+    }
   } else if c.secondary.is_some() {
     for i in 0..30u64 {
       acts.push(TAct { t: (2 + i * 3) * MS, act: Act::In(0, N::Next(V::I((i % 3) as i64))) });
@@ -223,13 +231,15 @@ pub fn judge(c: &Case, o: &Result<Obs, String>) -> Option<(String, serde_json::V
         return Some(("producer_not_retired".into(), show("the periodic producer is still alive more than one period after the stream ended (run-until-idle would not terminate)".into())));
       }
     }
+    // (where two more inner producers wait behind the running one, the hand-over may still start
+    // them after the end: each instance is allowed its one look)
     Prod::Iter => {
-      if o.pulls_after > 1 {
+      if o.pulls_after > if c.secondary.map_or(false, |s| s.ends_with("queued]")) { 3 } else { 1 } {
         return Some(("producer_not_retired".into(), show("the iterator is still being pulled after the stream ended".into())));
       }
     }
     Prod::Stream => {
-      if o.polls_after > 2 || o.live_tasks > 0 {
+      if o.polls_after > if c.secondary.map_or(false, |s| s.ends_with("queued]")) { 6 } else { 2 } || o.live_tasks > 0 {
         return Some(("producer_not_retired".into(), show("the stream is still being polled after the stream ended".into())));
       }
     }
@@ -316,7 +326,7 @@ fn check(cfg: &Cfg, rep: &mut Report, id: &str, c: &Case) {
 
 pub fn run(cfg: &Cfg, rep: &mut Report) {
   let prods = [Prod::Interval(5), Prod::Interval(1), Prod::Iter, Prod::Stream];
-  let two = ["skip_until", "take_until", "sample", "buffer", "with_latest_from", "merge", "zip", "combine_latest", "inner-of-flat_map", "inner-of-concat_map", "inner-of-merge_all"];
+  let two = ["skip_until", "take_until", "sample", "buffer", "with_latest_from", "merge", "zip", "combine_latest", "inner-of-flat_map", "inner-of-concat_map", "inner-of-merge_all", "inner-of-concat_map[2 queued]", "inner-of-merge_all(1)[2 queued]"];
   let mut idx = 0usize;
   let mut rng = Rng::new(cfg.seed ^ 0xC16);
   // sweep: every middle operator x every producer x a few cutters, producer in main position
